@@ -65,6 +65,12 @@ CLAIMED.update({
              technique='complete enumeration of (operation, caller class, single-rule override) on the real service with table dumps around every probe, judged by TLC against the policy table of spec/Surface.tla (TraceSurface.tla)',
              text='Exhaustive over the routing table x 7 caller classes (no credentials, no roles, reader of own / other project, member, admin, service) under the default policy and under every single-rule override to everyone / nobody: 401 without credentials, 403 for a caller the rule excludes (unless the request is 404/405/406/415 for every caller), never a success, no state change, no stored identifier in the body; allowed callers are never answered 401/403.'),
 })
+CLAIMED.update({
+ 'C15': dict(engine='fuzz', category='exploration', design_ref='7.15',
+             note='Trusted base: TLC as oracle, pv/fuzz.py (mutator, error-format check, table-dump comparison), SQLite. The input space is sampled by a seeded mutator; nothing is enumerated.',
+             technique='grammar-based mutation of valid requests to every route on the real service; every exchange judged by TLC against spec/TraceFuzz.tla (Accepted / Rejected are the only admitted steps)',
+             text='Seeded mutation (structure, type swaps, bounds up to 64-bit integers, deep and empty containers, unicode and control characters, repeated / conflicting query parameters, headers, media types, malformed JSON, paths, methods) of 40 valid seed requests covering every route, in a plain topology and one with a nested sharing provider; TLC admits an exchange only as Accepted (2xx/3xx, stored state satisfies the structural invariants) or Rejected (4xx with an errors-guideline body when JSON is acceptable, state unchanged for 400/404/405/406/415); a 5xx or an escaped exception is admitted by no action.'),
+})
 NOT_CLAIMED = {}
 ENGINES = [
  {'name': 'seq', 'path': 'pv/seqengine.py', 'serves_properties': ['C01', 'C04', 'C08', 'C09', 'C10', 'C11', 'C12', 'C19'],
@@ -78,4 +84,6 @@ ENGINES.append({'name': 'cand', 'path': 'pv/cand.py', 'serves_properties': ['C02
   'kind_free_text': 'spec/Candidates.tla declarative reference; spec/TraceCand.tla (TLC judges recorded responses); spec/MC_Cand.tla (TLC, reference vs API!Apply); claim replay of returned candidates'})
 ENGINES.append({'name': 'surface', 'path': 'pv/surface.py', 'serves_properties': ['C14', 'C16'],
   'kind_free_text': 'spec/Surface.tla (version windows, feature windows, policy table + laws); exhaustive probing of the real service; spec/TraceSurface.tla (TLC judges every probe)'})
+ENGINES.append({'name': 'fuzz', 'path': 'pv/fuzz.py', 'serves_properties': ['C15'],
+  'kind_free_text': 'seeded grammar-based request mutator; spec/TraceFuzz.tla (TLC judges every exchange)'})
 NOTES = 'See DESIGN.md. ./check <id> --tier quick|thorough [--seed N] [--replay FILE]; exit 2 = machinery failure.'
